@@ -359,7 +359,11 @@ pub fn read_conference_create_response(cc_response: &mut dyn Read) -> RdpResult<
             break;
         }
 
-        let mut buffer = vec![0 as u8; (cast!(DataType::U16, header["length"])? - header.length() as u16) as usize];
+        // The length of a block include its own header
+        let block_length = (cast!(DataType::U16, header["length"])? as usize).checked_sub(header.length() as usize).ok_or(
+            Error::RdpError(RdpError::new(RdpErrorKind::InvalidSize, "GCC: block length shorter than its header"))
+        )?;
+        let mut buffer = vec![0 as u8; block_length];
         sub.read_exact(&mut buffer)?;
 
         match MessageType::from(cast!(DataType::U16, header["type"])?) {
@@ -383,9 +387,11 @@ pub fn read_conference_create_response(cc_response: &mut dyn Read) -> RdpResult<
     }
 
     // All section are important
+    let server_net = result.get(&MessageType::ScNet).ok_or(Error::RdpError(RdpError::new(RdpErrorKind::InvalidData, "GCC: server network data block is missing")))?;
+    let server_core = result.get(&MessageType::ScCore).ok_or(Error::RdpError(RdpError::new(RdpErrorKind::InvalidData, "GCC: server core data block is missing")))?;
     Ok(ServerData{
-        global_channel_id: cast!(DataType::U16, result[&MessageType::ScNet]["MCSChannelId"])?,
-        channel_ids: cast!(DataType::Trame, result[&MessageType::ScNet]["channelIdArray"])?.into_iter().map(|x| cast!(DataType::U16, x).unwrap()).collect(),
-        rdp_version: Version::from(cast!(DataType::U32, result[&MessageType::ScCore]["rdpVersion"])?)
+        global_channel_id: cast!(DataType::U16, server_net["MCSChannelId"])?,
+        channel_ids: cast!(DataType::Trame, server_net["channelIdArray"])?.into_iter().map(|x| cast!(DataType::U16, x).unwrap()).collect(),
+        rdp_version: Version::from(cast!(DataType::U32, server_core["rdpVersion"])?)
     })
 }
